@@ -59,6 +59,7 @@ mutual
     -- `exec` that cannot find the utility: the shell is *aborted* (no EXIT trap) or, interactive, goes on —
     -- not one of the shell errors of termination.md
     | .execFail _ => none
+    | .evalEmpty => none
 
   /-- the first part of the command that fails, in the order words → redirections → assignments → utility -/
   def Simple.shellError : Simple → Option (ShellError × Nat)
